@@ -5,16 +5,18 @@ import json, os, shutil, sys
 ROOT=os.path.dirname(os.path.dirname(os.path.abspath(__file__)))
 pid,mk,res,needs=sys.argv[1:5]
 notes=sys.argv[5] if len(sys.argv)>5 and not sys.argv[5].startswith('--') else ''
-src='/tmp/seed-%s/out/%s'%(pid,mk)
+pre=os.environ.get('SEEDPREFIX','seed')
+src='/tmp/%s-%s/out/%s'%(pre,pid,mk)
+name=mk if pre=='seed' else 'w2'+mk
 patch=os.path.join(src,'patch.diff')
 if '--patch' in sys.argv: patch=sys.argv[sys.argv.index('--patch')+1]
-dst=os.path.join(ROOT,'seeded','%s-%s'%(pid,mk)); os.makedirs(dst,exist_ok=True)
+dst=os.path.join(ROOT,'seeded','%s-%s'%(pid,name)); os.makedirs(dst,exist_ok=True)
 shutil.copy(patch,os.path.join(dst,'patch.diff'))
 for f in os.listdir(src):
     if f.startswith('demo') or f=='README.md':
         shutil.copy(os.path.join(src,f),os.path.join(dst,f if f!='README.md' else 'SEEDER_README.md'))
 readme=open(os.path.join(src,'README.md')).read() if os.path.exists(os.path.join(src,'README.md')) else ''
-meta={'property':pid,'mutation':mk,
+meta={'property':pid,'mutation':name,
  'breaks':readme.split('\n')[0][:300],
  'needs_to_manifest':needs,
  'confirmed':'applied in a scratch worktree of /repo HEAD: go build ./... and -tags verif ok; existing test suite passes with the change; demonstration fails with the change and passes without it (tools/seedtest.sh)',
